@@ -447,6 +447,15 @@ def inline_fresh_helpers(tree: ast.Module, ref_mod: dict) -> None:
                 # bind arguments
                 amap = {}
                 args = list(call.args)
+                star_pre = None
+                if args and isinstance(args[-1], ast.Starred) and not call.keywords and not any(isinstance(a, ast.Starred) for a in args[:-1]) and len(args) - 1 < len(ps):
+                    # f(a, *E): E is unpacked into the remaining parameters first (`p2, p3 = E`), the call gets plain names
+                    rest_ps = ps[len(args) - 1:]
+                    cn = _assigned_names(fn) | {x.id for x in ast.walk(fn) if isinstance(x, ast.Name)}
+                    if not any(rp in cn for rp in rest_ps) and len(rest_ps) >= 1:
+                        tgt_ = ast.Tuple(elts=[ast.Name(id=rp, ctx=ast.Store()) for rp in rest_ps], ctx=ast.Store())
+                        star_pre = ast.Assign(targets=[tgt_], value=args[-1].value)
+                        args = args[:-1] + [ast.Name(id=rp, ctx=ast.Load()) for rp in rest_ps]
                 if len(args) + len(call.keywords) > len(ps) or any(isinstance(a, ast.Starred) for a in args):
                     ok_all = False
                     break
@@ -468,14 +477,24 @@ def inline_fresh_helpers(tree: ast.Module, ref_mod: dict) -> None:
                 if not ok_all or set(amap) != set(ps):
                     ok_all = False
                     break
-                plans.append((fn, call, amap))
+                plans.append((fn, call, amap, star_pre))
             if not ok_all:
                 continue
             # expression helper: single `return <expr>`
             expr_helper = len(body) == 1 and isinstance(body[0], ast.Return) and body[0].value is not None
             done_sites = 0
             site_no: Dict[int, int] = {}
-            for fn, call, amap in plans:
+            for fn, call, amap, star_pre in plans:
+                if star_pre is not None:
+                    # put the unpacking in front of the statement that holds the call (the starred value is evaluated there first
+                    # in both forms when nothing that calls precedes it in the statement: required below)
+                    host = _nested_site(fn, call, [ast.Return(value=ast.Constant(value=None))]) or _stmt_of(fn, call)
+                    if host is None:
+                        continue
+                    hblk, hidx, _hst = host
+                    hblk.insert(hidx, ast.copy_location(star_pre, _hst))
+                    call.args = [a for a in call.args[:-1]] + [ast.Name(id=e.id, ctx=ast.Load()) for e in star_pre.targets[0].elts]
+                    ast.fix_missing_locations(fn)
                 caller_names = _assigned_names(fn)
                 site_no[id(fn)] = site_no.get(id(fn), 0) + 1
                 nth = site_no[id(fn)]
